@@ -275,6 +275,21 @@ impl<T: TypeConfig> LogView for BufferedRaftLog<T> {
     fn term_of(&self, idx: u64) -> Option<u64> {
         self.entry_term(idx)
     }
+    fn conf_change(&self, idx: u64) -> Option<(&'static str, Vec<u32>)> {
+        use d_engine_proto::common::entry_payload::Payload;
+        use d_engine_proto::common::membership_change::Change;
+        let e = self.entry(idx).ok().flatten()?;
+        match e.payload?.payload? {
+            Payload::Config(mc) => match mc.change? {
+                Change::AddNode(a) => Some(("add", vec![a.node_id])),
+                Change::RemoveNode(r) => Some(("remove", vec![r.node_id])),
+                Change::Promote(p) => Some(("promote", vec![p.node_id])),
+                Change::BatchPromote(b) => Some(("promote", b.node_ids)),
+                Change::BatchRemove(b) => Some(("remove", b.node_ids)),
+            },
+            _ => None,
+        }
+    }
 }
 
 // ------------------------------------------------------------------------------------------
